@@ -862,6 +862,61 @@ func genValidate(emit func(string), tier string, rng *Rng) {
 			}
 		}
 	}
+	// nothing survives: no kept field and every developer field dropped (KF-C10-3, repaired: errNoFields after the
+	// developer-field loop). One and two validations, both gates; the validator state stays updated on that error
+	// path (a developer-data-id / field-description message that ends up empty has been registered already).
+	for _, p := range []bool{false, true} {
+		bad, nilF, inv := dval(0, 1, proto.Uint8(0xff)), proto.Field{Value: proto.Uint8(1)}, mkField(1, basetype.Uint8, proto.Uint8(0xff))
+		exp := good(2)
+		exp.IsExpandedField = true
+		for _, m := range []proto.Message{onlyDev(bad), onlyDev(bad, bad, bad), onlyDev(bad, dval(0, 1, proto.Uint8(7))),
+			{Num: mnRecord, Fields: []proto.Field{nilF, exp}, DeveloperFields: []proto.DeveloperField{bad}},
+			{Num: mnRecord, Fields: []proto.Field{inv, nilF}, DeveloperFields: []proto.DeveloperField{bad, bad}},
+			{Num: mnRecord, Fields: []proto.Field{inv, good(3)}, DeveloperFields: []proto.DeveloperField{bad}}} {
+			for _, op := range []string{"validate", "validate2"} {
+				devSeq(p, true, nil, op, ddi0, fd0, m, rec(dval(0, 1, proto.Uint8(5))))
+			}
+			for _, op := range []string{"encgate", "streamgate"} {
+				emitSeq(op, p, true, nil, []proto.Message{ddi0, fd0, m, rec(dval(0, 1, proto.Uint8(5)))}, "v:20 h:00 ")
+				count("developer")
+			}
+		}
+		fd255 := fieldDescMesg(fdSpec{ddi: 255, fdn: 1, bt: 2, scale: -1, offset: 1000, nmn: -1, nfn: -1})
+		devSeq(p, true, nil, "validate", ddi0, fd0, proto.Message{Num: mnDevDataId, DeveloperFields: []proto.DeveloperField{bad}},
+			fd255, rec(dval(255, 1, proto.Uint8(5))))
+		devSeq(p, true, nil, "validate", ddi0, fd0, proto.Message{Num: mnDevDataId, Fields: []proto.Field{nilF}, DeveloperFields: []proto.DeveloperField{bad}},
+			fd255, rec(dval(255, 1, proto.Uint8(5))))
+		devSeq(p, true, nil, "validate", ddi0, fd0, fd255, rec(dval(255, 1, proto.Uint8(5)))) // … and 255 is not registered otherwise
+		devSeq(p, true, nil, "validate", ddi0, fd0, proto.Message{Num: mnFieldDesc, DeveloperFields: []proto.DeveloperField{bad}},
+			proto.Message{Num: mnDevDataId, DeveloperFields: []proto.DeveloperField{bad}}, rec(dval(255, 255, proto.Uint8(5))), rec(dval(255, 255, proto.Uint8(0xff))))
+	}
+	for it := 0; it < 300; it++ {
+		msgs := []proto.Message{ddi0, fd0}
+		for k := 1 + rng.Intn(3); k > 0; k-- {
+			m := proto.Message{Num: mnRecord}
+			for i := rng.Intn(3); i > 0; i-- {
+				m.Fields = append(m.Fields, badKinds[rng.Intn(len(badKinds))](i))
+			}
+			if rng.Intn(4) == 0 {
+				m.Fields = append(m.Fields, good(5))
+			}
+			for i := rng.Intn(4); i > 0; i-- {
+				v := proto.Uint8(0xff)
+				if rng.Intn(4) == 0 {
+					v = proto.Uint8(byte(rng.Intn(255)))
+				}
+				m.DeveloperFields = append(m.DeveloperFields, dval(0, 1, v))
+			}
+			msgs = append(msgs, m)
+		}
+		switch it % 4 {
+		case 0, 1:
+			devSeq(rng.Bool(), true, nil, []string{"validate", "validate2"}[it%2], msgs...)
+		default:
+			emitSeq([]string{"encgate", "streamgate"}[it%2], rng.Bool(), true, nil, msgs, "v:20 h:00 ")
+			count("developer")
+		}
+	}
 	// number of developer fields 0..300 × keep patterns
 	for n := 0; n <= 300; n++ {
 		if !thorough && n%10 != 0 && (n < 250 || n > 262) {
